@@ -89,13 +89,23 @@ def gen(rng, tier):
         good = bytes(rng.getrandbits(8) for _ in range(n)).hex()
         for variant in (good + "g", good + "0", good[:-1], good[:n] + "zz" + good[n:], "0x" + good + "x", good + " 0x", "\n".join(good[i:i + 64] for i in range(0, len(good), 64)) + "\n0"):
             bad.append(variant.encode())
+    # one digit of a valid even-length text replaced by a character that integer parsers tolerate or that looks harmless
+    # (sign, separator, point, x, e-accent, NUL): the digit count stays even, the text is not hex
+    for base in ("4a4b", "0x4a4b", "0x00ff10", "AbCdEf0123456789"):
+        start = 2 if base.startswith("0x") else 0
+        for pos in range(start, len(base)):
+            for ch in "+-_.,xX~ \x00gG":
+                if ch == " ":
+                    continue
+                bad.append((base[:pos] + ch + base[pos + 1:]).encode())
+    bad += [b"0x+a", b"+a", b"0x4a+b", b"4a +B", b"0x++", b"+0x4a", b"0x-a", b"0x_a", b"0x+4", b"0x4+"]
     for b in bad:
         cases.append(Case("cli.hex_decode " + hx(b), tags=("dec", "malformed"), runner="cli"))
     for _ in range(200 if tier == "thorough" else 60):
         d = bytearray(layout(rng, rb(rng.randint(1, 12))))
         if d:
             i = rng.randrange(len(d))
-            d[i] = rng.choice([0x67, 0x47, 0x2d, 0x80, 0xff, 0x78, 0x30, 0x00, 0x7f])
+            d[i] = rng.choice([0x67, 0x47, 0x2d, 0x2b, 0x5f, 0x2e, 0x80, 0xff, 0x78, 0x30, 0x00, 0x7f])
         if rng.random() < 0.3 and d:
             del d[rng.randrange(len(d))]
         cases.append(Case("cli.hex_decode " + hx(bytes(d)), tags=("dec", "mutated"), runner="cli"))
